@@ -424,7 +424,13 @@ func c08Run(r *vlib.Run, sc c08Scenario, idx int) (evaluated bool) {
 				return false
 			}
 		}
-		d.breakOutput()
+		if d.breakOutput() {
+			r.Inconclusive(label + ": the events FIFO still has a reader after the harness closed its own: the write failure cannot be arranged")
+			if pm != nil {
+				pm.halt()
+			}
+			return false
+		}
 		if pm == nil {
 			for k := 0; k < 3; k++ {
 				io.WriteString(wa, vlib.AuUser("USER_START", vlib.BaseTSms+int64(30+k), uint32(30+k), 31338, "31338", "PAM:session_open", "success")+"\n")
@@ -469,7 +475,7 @@ func c08Run(r *vlib.Run, sc c08Scenario, idx int) (evaluated bool) {
 		}
 		if stuck {
 			atomic.AddInt32(&c08Hangs, 1)
-			r.Violation(sig+":daemon-keeps-running", fmt.Sprintf("%s: daemon did not exit; %s", label, why), map[string]any{"scenario": sc, "dump": trunc(dump, 6000)})
+			r.Violation(sig+":daemon-keeps-running", fmt.Sprintf("%s: daemon did not exit; %s", label, why), map[string]any{"scenario": sc, "dump": trunc(dump, 6000), "output_tail": trunc(string(d.outputRaw()), 1500), "stderr": trunc(d.stderr.String(), 1500)})
 		} else {
 			r.Inconclusive(label + ": daemon did not exit within the watchdog but is not parked: " + why)
 			if os.Getenv("VERIF_DEBUG") != "" {
@@ -527,6 +533,15 @@ func checkC08(r *vlib.Run) int {
 			}
 		}
 	}
+	if only := os.Getenv("VERIF_C08_ONLY_IDLE"); only != "" {
+		var f []c08Scenario
+		for _, s := range scs {
+			if s.Cause == only && !s.Saturated {
+				f = append(f, s)
+			}
+		}
+		scs = f
+	}
 	if only := os.Getenv("VERIF_C08_ONLY"); only != "" {
 		var f []c08Scenario
 		for _, s := range scs {
@@ -557,7 +572,10 @@ func checkC08(r *vlib.Run) int {
 	}
 	var idle, sat []int
 	for i, s := range scs {
-		if s.Saturated || s.HTTP {
+		// one at a time: saturated scenarios (timing), the HTTP server (fixed port), and the FIFO-output
+		// cause (while other daemons are being started, a child between fork and exec holds a copy of
+		// every descriptor of the harness, the FIFO's reading end included)
+		if s.Saturated || s.HTTP || s.Cause == "write-failure-on-audit-event" {
 			sat = append(sat, i)
 		} else {
 			idle = append(idle, i)
